@@ -196,6 +196,8 @@ static int GRIgetaid(ri_info_t *img_ptr, int acc_perm);
 
 static int32 GRIimg_length(ri_info_t *ri_ptr);
 
+static int GRIhas_data(int32 file_id, uint16 tag, uint16 ref);
+
 static int GRIisspecial_type(int32 file_id, uint16 tag, uint16 ref);
 
 #ifdef H4_HAVE_LIBSZ /* we have the library */
@@ -1279,6 +1281,31 @@ GRIget_image_list(int32 file_id, gr_info_t *gr_ptr)
 done:
     return ret_value;
 } /* end GRIget_image_list() */
+
+/*--------------------------------------------------------------------------
+ NAME
+    GRIhas_data
+ PURPOSE
+    Tell whether an image element has data in the file yet, or whether only
+    its tag & ref are known.
+ RETURNS
+    TRUE/FALSE
+ DESCRIPTION
+    Looks at the data descriptor in memory only, so that an I/O error cannot
+    be mistaken for "no data yet".
+--------------------------------------------------------------------------*/
+static int
+GRIhas_data(int32 file_id, uint16 tag, uint16 ref)
+{
+    uint16 find_tag = 0, find_ref = 0;
+    int32  find_off = 0, find_len = 0;
+
+    if (Hfind(file_id, tag, ref, &find_tag, &find_ref, &find_off, &find_len, DF_FORWARD) == FAIL)
+        return FALSE;
+    if (find_off == INVALID_OFFSET || find_len == INVALID_LENGTH)
+        return FALSE;
+    return TRUE;
+} /* end GRIhas_data() */
 
 /*--------------------------------------------------------------------------
  NAME
@@ -2676,10 +2703,16 @@ GRwriteimage(int32 riid, int32 start[2], int32 in_stride[2], int32 count[2], voi
         new_image = TRUE;
     else {
         /* Check if the actual image data is in the file yet, or if just the tag & ref are known */
-        if (GRIimg_length(ri_ptr) > 0)
-            new_image = FALSE;
-        else
+        if (!GRIhas_data(ri_ptr->gr_ptr->hdf_file_id, ri_ptr->img_tag, ri_ptr->img_ref))
             new_image = TRUE;
+        else {
+            int32 img_len = GRIimg_length(ri_ptr);
+
+            /* the element exists: failing to get its length is an error, not an empty image */
+            if (img_len == FAIL)
+                HGOTO_ERROR(DFE_BADLEN, FAIL);
+            new_image = (img_len > 0) ? FALSE : TRUE;
+        }
     } /* end else */
 
     if (GRIgetaid(ri_ptr, DFACC_WRITE) == FAIL)
@@ -3072,10 +3105,16 @@ GRreadimage(int32 riid, int32 start[2], int32 in_stride[2], int32 count[2], void
     else {
         /* Check if the actual image data is in the file yet, or if just the
            tag & ref are known */
-        if (GRIimg_length(ri_ptr) > 0)
-            image_data = TRUE;
-        else
+        if (!GRIhas_data(hdf_file_id, ri_ptr->img_tag, ri_ptr->img_ref))
             image_data = FALSE;
+        else {
+            int32 img_len = GRIimg_length(ri_ptr);
+
+            /* the element exists: failing to get its length is an error, not an empty image */
+            if (img_len == FAIL)
+                HGOTO_ERROR(DFE_BADLEN, FAIL);
+            image_data = (img_len > 0) ? TRUE : FALSE;
+        }
     } /* end else */
 
     if (image_data == FALSE) { /* Fake an image for the user by using the pixel fill value */
